@@ -93,6 +93,38 @@ def gen(args) -> list:
         share the cached zone's history (the values under test use the cached zone)."""
         return getattr(zone, "_CachedDateTimeZone__time_zone", zone)
 
+    # calendar fields of values made from (instant, offset, calendar), also right after a neighbouring year was converted from empty caches
+    from harness.props.c13 import cold
+
+    for cal in cals:
+        calc = cal._year_month_day_calculator
+        for _ in range(8 if cal.id.startswith("Hebrew") else 2):
+            day = rnd.randint(cal._min_days + 800, cal._max_days - 800)
+            nod = rnd.randrange(NPD)
+            o = roff()
+            shift = rnd.choice([380, 380, -380, 0])
+
+            def run(cal=cal, day=day, nod=nod, o=o, shift=shift):
+                out = []
+                if shift:
+                    Instant._ctor(days=day + shift, nano_of_day=0).with_offset(Offset.zero, cal).year      # a neighbouring year first
+                for dd in (0, 29, 59, 120, 200, -40):
+                    i = Instant._ctor(days=day + dd, nano_of_day=nod)
+                    ev = {"op": "ymd", "inst": proj.t3_instant(i), "off": o.seconds, "cal": cal.id, "after_shift": shift}
+                    try:
+                        x = i.with_offset(o, cal)
+                        ev["y"], ev["m"], ev["d"] = x.year, x.month, x.day
+                        ev["back_inst"] = proj.t3_instant(x.to_instant())
+                    except Exception as e:  # noqa: BLE001
+                        ev["exc"] = type(e).__name__
+                    out.append(ev)
+                return out
+
+            try:
+                evs.extend(cold(calc, run))
+            except Exception:  # noqa: BLE001
+                pass
+
     for _ in range(n):
         c = rnd.random()
         cal, v = mk()
